@@ -13,6 +13,7 @@ for d in sorted(glob.glob(SRC + "/C*/[0-9]*")):
     if not os.path.exists(d + "/patch.diff"): continue
     p = subprocess.run([os.path.join(R, "tools", "seedtest.sh"), d + "/patch.diff", pid, "quick"], stdout=subprocess.PIPE, stderr=subprocess.STDOUT, text=True, errors="replace")
     out = p.stdout
+    open(os.path.join(R, ".work", "ref-%s-%s.log" % (pid, n)), "w").write(out)
     v = [l for l in out.splitlines() if l.startswith("VIOLATION")]
     keys = re.findall(r"^\s+\((?:prop|tie|proof|broken)\)\s*(?:key=)?(\S+)", out, re.M)[:3]
     if "patch does not apply" in out: kind = "NOAPPLY"
